@@ -335,9 +335,12 @@ class RegexObj(Ext):
     def sym_getattr(self, it, attr):
         if attr in ("findall", "split"):
             def f(i, a, k):
-                getattr(i, "_c11_seen", self.seen)[attr] = self.pattern
                 if isinstance(a[0], ArgStr):
+                    getattr(i, "_c11_seen", self.seen)[attr] = self.pattern
                     return [NumStr(n) for n in a[0].names]
+                top = _top_level_findall(i, self.pattern, a[0], getattr(i, "_c11_oplist", self.oplist), getattr(i, "_c11_seen", self.seen)) if attr == "findall" else None
+                if top is not None:
+                    return top
                 raise Undecided(f"regex .{attr} on something else")
             return PyCallable(f)
         if attr == "finditer":
@@ -350,6 +353,20 @@ class RegexObj(Ext):
                 return [Match(op, names) for op, names in ol]
             return PyCallable(g)
         raise Undecided(f"regex object attribute {attr}")
+
+
+def _top_level_findall(it, pattern, text, oplist, seen):
+    """findall of a two-group operator pattern over the whole transform string: the (operator, arguments) pairs of the match list."""
+    import re as _re_mod
+    if not (isinstance(text, SymStr) and isinstance(pattern, str) and oplist is not None):
+        return None
+    try:
+        if _re_mod.compile(pattern).groups != 2:
+            return None
+    except _re_mod.error:
+        return None
+    seen["pattern"] = pattern
+    return [(op, ArgStr(names)) for op, names in oplist]
 
 
 def _parse_with(repo, oplist):
@@ -371,9 +388,12 @@ def _parse_with(repo, oplist):
             raise Undecided("re.split on something else")
 
         def findall(i, a, k):
-            seen["findall"] = a[0]
             if isinstance(a[1], ArgStr):
+                seen["findall"] = a[0]
                 return [NumStr(n) for n in a[1].names]
+            top = _top_level_findall(i, a[0], a[1], oplist, seen)
+            if top is not None:
+                return top
             raise Undecided("re.findall on something else")
 
         it.external["re.finditer"] = finditer
